@@ -65,6 +65,10 @@ pub struct ClientScript {
     /// slow reader: the client starts reading frames only this long after the handshake
     #[serde(default)]
     pub read_pause_ms: u64,
+    /// ending "close": 1 = a data frame follows the Close frame in the same write, 2 = a data frame
+    /// is sent 30 ms after the Close frame (nothing may be dispatched for a client after its close)
+    #[serde(default)]
+    pub after_close: u8,
 }
 
 #[derive(Serialize, Deserialize, Clone, Debug)]
@@ -290,7 +294,16 @@ fn run_client(cid: usize, sc: ClientScript, server: SocketAddr, out: Arc<Mutex<C
             out.lock().unwrap().close_sent_at = Some(sim::decision_index());
             {
                 let _g = wlock.lock().unwrap();
-                let _ = s.write_all(&frame_bytes(0x8, &[0x03, 0xe8], true, 5));
+                let mut bytes = frame_bytes(0x8, &[0x03, 0xe8], true, 5);
+                if sc.after_close == 1 {
+                    bytes.extend(frame_bytes(1, format!("late-c{}", cid).as_bytes(), true, 77));
+                }
+                let _ = s.write_all(&bytes);
+            }
+            if sc.after_close == 2 {
+                humsim::thread::sleep(Duration::from_millis(30));
+                let _g = wlock.lock().unwrap();
+                let _ = s.write_all(&frame_bytes(1, format!("late-c{}", cid).as_bytes(), true, 78));
             }
             // wait for the server's close / EOF
             let _ = reader.join();
@@ -354,7 +367,7 @@ impl Prop for C12 {
         }
     }
     fn rule(&self) -> &'static str {
-        "One case = 1..8 reference clients each running a script over {connect at a time, send text/binary messages (possibly fragmented, with all fragments in one write or 1..40 ms apart so that a message is spread over several polls; bursts of several within one poll interval; plain, asking the handler for a unicast reply, asking for a broadcast), ping, sleep} and ending by Close frame, abrupt FIN, closing the socket outright (server writes to it then fail), going silent (partition, with heartbeat on) or staying connected; an external AsyncSender thread issuing unicasts and broadcasts (3..60 KB ones when a slow-reading client with a 600..4000-byte receive window is present) at scripted virtual times; handler pools of 1..8 threads; poll interval none / 1..10 ms; heartbeat off or (interval, timeout); linked and unlinked construction; then the shutdown signal. All under one seeded schedule (random / sticky / PCT / round-robin) of the poll loop, the pool, the front App and the clients. Distinct = distinct event-log shape (per client: connect / message count / disconnect, order class) plus configuration; non-trivial = at least two clients or one client with at least two messages, and at least one server-side send."
+        "One case = 1..8 reference clients each running a script over {connect at a time, send text/binary messages (possibly fragmented, with all fragments in one write or 1..40 ms apart so that a message is spread over several polls; bursts of several within one poll interval; plain, asking the handler for a unicast reply, asking for a broadcast), ping, sleep} and ending by Close frame (sometimes followed by a data frame, which must not be dispatched), abrupt FIN, closing the socket outright (server writes to it then fail), going silent (partition, with heartbeat on) or staying connected; an external AsyncSender thread issuing unicasts and broadcasts (3..60 KB ones when a slow-reading client with a 600..4000-byte receive window is present) at scripted virtual times; handler pools of 1..8 threads; poll interval none / 1..10 ms; heartbeat off or (interval, timeout); linked and unlinked construction; then the shutdown signal. All under one seeded schedule (random / sticky / PCT / round-robin) of the poll loop, the pool, the front App and the clients. Distinct = distinct event-log shape (per client: connect / message count / disconnect, order class) plus configuration; non-trivial = at least two clients or one client with at least two messages, and at least one server-side send."
     }
     fn assumptions(&self) -> Vec<String> {
         vec![
@@ -367,7 +380,7 @@ impl Prop for C12 {
         ]
     }
     fn expected_counters(&self) -> Vec<&'static str> {
-        vec!["c12.clients", "c12.messages_sent", "c12.fragmented", "c12.fragments_spread_over_polls", "c12.bursts", "c12.unicast_replies", "c12.handler_broadcasts", "c12.external_sends", "c12.close_endings", "c12.fin_endings", "c12.drop_endings", "c12.silent_endings", "c12.close_near_timeout_endings", "c12.heartbeat_on", "c12.linked", "c12.unlinked", "c12.single_handler_thread", "c12.slow_reader", "c12.no_poll_interval", "net.silent_peer"]
+        vec!["c12.clients", "c12.messages_sent", "c12.fragmented", "c12.fragments_spread_over_polls", "c12.bursts", "c12.unicast_replies", "c12.handler_broadcasts", "c12.external_sends", "c12.close_endings", "c12.fin_endings", "c12.data_after_close", "c12.drop_endings", "c12.silent_endings", "c12.close_near_timeout_endings", "c12.heartbeat_on", "c12.linked", "c12.unlinked", "c12.single_handler_thread", "c12.slow_reader", "c12.no_poll_interval", "net.silent_peer"]
     }
     fn real_vs_stub(&self) -> (Vec<&'static str>, Vec<&'static str>) {
         (vec!["AsyncWebsocketApp::run, AsyncStream/AsyncSender, async_websocket_handler + handshake, WebsocketStream::recv_nonblocking/send/ping, ThreadPool, App"], vec!["threads, Mutex/mpsc, sleep, Instant, TCP, the streams HashMap's hasher (humsim)", "clients are harness reference RFC 6455 implementations"])
@@ -402,7 +415,7 @@ impl Prop for C12 {
                 6 if heartbeat.is_some() => "close-near-timeout",
                 _ => "stay",
             };
-            clients.push(ClientScript { start_ms: [0u64, 0, 3, 20, 100][rng.usize_below(5)], steps, ending: ending.into(), near_us: rng.below(24_000) as i64 - 4_000, window: None, read_pause_ms: 0 });
+            clients.push(ClientScript { start_ms: [0u64, 0, 3, 20, 100][rng.usize_below(5)], steps, ending: ending.into(), near_us: rng.below(24_000) as i64 - 4_000, window: None, read_pause_ms: 0, after_close: 0 });
         }
         let next = rng.range(0, 3) as usize;
         let mut external: Vec<Ext> = (0..next).map(|_| Ext { at_ms: [5u64, 30, 150, 600][rng.usize_below(4)], to: if rng.chance(1, 2) { None } else { Some(rng.usize_below(nclients)) }, size: 0 }).collect();
@@ -411,6 +424,12 @@ impl Prop for C12 {
         // blocked in a write to a slow reader would let other clients' heartbeats lapse, which is
         // Humphrey's design and not what this property judges)
         let mut rng2 = Rng::new(humsim::rng::mix(&[run_seed(seed, "C12", idx), 0xC12_0002]));
+        // a quarter of the clients that end with a Close frame send a data frame after it
+        for c in clients.iter_mut() {
+            if c.ending == "close" && rng2.chance(1, 4) {
+                c.after_close = 1 + rng2.below(2) as u8;
+            }
+        }
         // fragmented messages: half of them arrive with a pause between the fragments (spread over
         // several polls when the pause exceeds the poll interval)
         for c in clients.iter_mut() {
@@ -623,7 +642,12 @@ impl Prop for C12 {
         rr.count("c12.external_sends", scn.external.len() as u64);
         for c in &scn.clients {
             match c.ending.as_str() {
-                "close" => rr.count("c12.close_endings", 1),
+                "close" => {
+                    rr.count("c12.close_endings", 1);
+                    if c.after_close > 0 {
+                        rr.count("c12.data_after_close", 1);
+                    }
+                }
                 "fin" => rr.count("c12.fin_endings", 1),
                 "drop" => rr.count("c12.drop_endings", 1),
                 "silent" => rr.count("c12.silent_endings", 1),
